@@ -8,5 +8,5 @@ Extraction Language OCaml.
 Extraction "model.ml"
   Byte.of_N Byte.to_N N.of_nat N.to_nat
   Keys.nibs Keys.bytes_cmp
-  Model.normalize Model.build Model.getid Model.get Model.rangeget Model.search Model.searchid
+  Model.normalize Model.build Model.build_gen Model.getid Model.get Model.rangeget Model.search Model.searchid
   Model.node_views Model.tree_id Flat.fgetid Flat.fsearchid.
